@@ -956,17 +956,19 @@ Proof.
   rewrite Habove. reflexivity.
 Qed.
 
-(** on the six reader types the overlap helper compares in the type's order *)
-Lemma compare_M_overlap_ord : forall t a b, reader_type t -> wf_val t a -> wf_val t b ->
+(** the types the range helpers order correctly: the six reader types and INT96 *)
+Definition helper_type (t : ptype) : Prop := reader_type t \/ t = TInt96.
+
+Lemma compare_M_overlap_ord : forall t a b, helper_type t -> wf_val t a -> wf_val t b ->
   val_nan t a = false -> val_nan t b = false -> compare_M_overlap t a b = SOk (ord t a b).
 Proof.
   intros t a b Ht Wa Wb Na Nb.
-  destruct Ht as [E|[E|[E|[E|[E|E]]]]]; subst t; cbn [compare_M_overlap]; try (apply compare_M_ord; assumption); reflexivity.
+  destruct Ht as [[E|[E|[E|[E|[E|E]]]]]|E]; subst t; cbn [compare_M_overlap]; try (apply compare_M_ord; assumption); reflexivity.
 Qed.
 
 (** ** overlap_sound: a query range that holds a value of the data overlaps the statistics *)
 Theorem overlap_sound_thm : forall t ps data qmin qmax,
-  reader_type t ->
+  helper_type t ->
   (forall a, qmin = Some a -> wf_val t a) -> (forall b, qmax = Some b -> wf_val t b) ->
   lower_ok t (ps_min_value ps) data -> upper_ok t (ps_max_value ps) data ->
   (exists v, In v data /\ (forall a, qmin = Some a -> sat t OpGe v a = true) /\
@@ -997,11 +999,11 @@ Proof.
 Qed.
 
 (** P on well-formed operands of a reader type: the type's order, or UNORDERED when a NaN is involved *)
-Lemma compare_P_ord : forall t a b, reader_type t -> wf_val t a -> wf_val t b ->
+Lemma compare_P_ord : forall t a b, helper_type t -> wf_val t a -> wf_val t b ->
   val_nan t a = false -> val_nan t b = false -> compare_P t a b = SOk (ord t a b).
 Proof.
   intros t a b Ht Wa Wb Na Nb.
-  destruct Ht as [E|[E|[E|[E|[E|E]]]]]; subst t; unfold wf_val in Wa, Wb; cbn [width] in Wa, Wb; cbn [compare_P];
+  destruct Ht as [[E|[E|[E|[E|[E|E]]]]]|E]; subst t; unfold wf_val in Wa, Wb; cbn [width] in Wa, Wb; cbn [compare_P];
     try reflexivity;
     (apply Nat.leb_le in Wa; apply Nat.leb_le in Wb; rewrite Wa, Wb; cbn [andb];
      apply Nat.leb_le in Wa; apply Nat.leb_le in Wb).
@@ -1009,6 +1011,7 @@ Proof.
   - apply (compare_R_ord TInt64); try assumption; discriminate.
   - apply (compare_R_ord TFloat); try assumption; discriminate.
   - apply (compare_R_ord TDouble); try assumption; discriminate.
+  - apply (compare_M_ord TInt96); assumption.
 Qed.
 
 (** pages as carquet_column_index_add_page stores them: never an empty min or max *)
@@ -1022,7 +1025,7 @@ Qed.
 
 (** ** page_might_match_sound *)
 Theorem page_might_match_sound_thm : forall t pages idx pg data qmin qmax,
-  reader_type t -> 0 <= idx -> nth_error pages (Z.to_nat idx) = Some pg -> page_wf pg ->
+  helper_type t -> 0 <= idx -> nth_error pages (Z.to_nat idx) = Some pg -> page_wf pg ->
   (pg_null_page pg = true -> data = []) ->
   (forall a, qmin = Some a -> wf_val t a) -> (forall b, qmax = Some b -> wf_val t b) ->
   lower_ok t (pg_min pg) data -> upper_ok t (pg_max pg) data ->
